@@ -349,6 +349,29 @@ func (st *State) entCall(fr *Frame, in ssa.CallInstruction, callee *ssa.Function
 			}
 		}
 		// methods on entities and on Tx
+		if rt == "*"+e.modPath+"/ent.Client" && name == "BeginTx" {
+			// (tx, err): a fresh transaction, or an error and no transaction (ghost tx_begin_failed)
+			r := st.allocRef()
+			er := st.fresh("beginerr", SInt)
+			st.assume(And(Ge(er, IntLit(0)), Lt(er, IntLit(900000000))))
+			st.ghostSet("tx_begin_failed", nil, Neq(er, IntLit(0)))
+			st.e.note(st.u.name, "intrinsic", "ent Client.BeginTx")
+			k(st, &TupleV{[]SVal{Ite(Eq(er, IntLit(0)), r, IntLit(0)), er}})
+			return true
+		}
+		if rt == "*"+e.modPath+"/ent.Tx" && (name == "Commit" || name == "Rollback") {
+			er := st.fresh(strings.ToLower(name)+"err", SInt)
+			st.assume(Ge(er, IntLit(0)))
+			if name == "Commit" {
+				st.ghostSet("tx_commit_tried", nil, TTrue)
+				st.ghostSet("tx_commit_failed", nil, Neq(er, IntLit(0)))
+			} else {
+				st.ghostSet("tx_rollback_tried", nil, TTrue)
+			}
+			st.e.note(st.u.name, "intrinsic", "ent Tx."+name)
+			k(st, er)
+			return true
+		}
 		if rt == "*"+e.modPath+"/ent.Tx" {
 			switch name {
 			case "OnCommit":
